@@ -195,8 +195,8 @@ def cpython(template: Any, args: Any) -> str:
 
 SPECS = ("%s", "%d", "%5.2f", "%x", "%c", "%r", "%%", "%*d", "%.*f", "%(a)s", "%(a)d", "%(b)s", "%b", "%-5s", "%i")
 ARGS: Tuple[Any, ...] = (
-    1, "s", 1.5, None, b"b", "xy",
-    (), (1,), ("s",), (1, "s"), (1, 2), (1, 2, 3), (b"b",), (1.5, 2),
+    1, "s", 1.5, None, b"b", "xy", "", b"",
+    (), (1,), ("s",), (1, "s"), (1, 2), (1, 2, 3), (b"b",), (1.5, 2), ("",), ("s", ""),
     {}, {"a": 1}, {"a": "s"}, {"a": 1, "b": "s"}, {"b": 1}, {b"a": 1}, {b"a": 1, b"b": b"x"}, {1: "x"}, {"c": 1},
 )
 
